@@ -73,8 +73,8 @@ class Fixture:
                     raise Mismatch('fixture:set_value:%d' % rc, 'fixture')
             rc, self.loop = L.get_category_loop(self.b, '')
         else:
-            self.cat = 'c'
-            rc, self.loop = L.create_loop(self.b, 'c', self.names)
+            self.cat = 'c' if (serial // 2) % 2 == 0 else None  # (most loops of real CIFs bear none; serial's parity is close / abort)
+            rc, self.loop = L.create_loop(self.b, self.cat, self.names)
             if rc != CIF_OK:
                 raise Mismatch('fixture:create_loop:%d' % rc, 'fixture')
             n = 3 if npk == 'partial' else npk
@@ -333,6 +333,24 @@ def run_script(ctx, L, shape, script, fin, serial):
         L.value_free(v)
         if rc != CIF_OK:
             raise Mismatch('model:cif_container_set_value:0:%d:after-iterator' % rc, 'set_value after %s -> %d' % (fin, rc))
+        if shape[0] != 'scalar':
+            # ... and so is the loop: it takes a new packet, next to exactly the packets it is supposed to hold
+            newpk = dict((nm, ('char', 'added-after-%s_%s_%d' % (fin, nm, serial), True)) for nm in fx.names)
+            rc, p = L.packet_create(fx.names)
+            for nm in fx.names:
+                v = L.make_value(newpk[nm])
+                L.packet_set(p, nm, v)
+                L.value_free(v)
+            rc = L.loop_add_packet(fx.loop, p)
+            L.packet_free(p)
+            if rc != CIF_OK:
+                raise Mismatch('model:cif_loop_add_packet:0:%d:after-iterator' % rc, 'adding a packet to the loop after script %s + %s -> %d' % (script, fin, rc))
+            want2 = model_content(fx.names, (live if fin == 'close' else initial) + [newpk])
+            got2 = fx.content()
+            if got2 != want2:
+                raise Mismatch('state:after-%s:content-after-add' % fin,
+                               'after script %s + %s and one added packet the loop holds %s; expected %s' % (script, fin, D._short(got2, 300), D._short(want2, 300)))
+            ctx.count('packets_added_after_iteration')
         ctx.add('final_states', '%s/%d' % (state, len(want)))
     finally:
         fx.release()
